@@ -493,8 +493,23 @@ def fen_strings(rng, legal_fens, n_valid, n_bad):
     junk = ["é", "ü", "€", " ", "𝔸", "x", "9", "0", "/", " ", "-", "k", "K", "e", "ex", "e9", "é", "i3", "a0", "+", "+1", "-1", "256", "4294967296", "w", "b", "", "\t", "\n"] + uni
     for _ in range(n_bad):
         f = rng.choice(legal_fens).split(" ")
-        style = rng.randrange(9)
-        if style == 0:
+        style = rng.randrange(10)
+        if style == 9:
+            # an empty-square run that overflows the row late: some squares consumed, then a digit too large
+            rows = f[0].split("/")
+            i = rng.randrange(8)
+            used = rng.randrange(1, 8)
+            prefix = ""
+            left = used
+            while left > 0:
+                if rng.random() < 0.5:
+                    prefix += rng.choice("rnbqkpRNBQKP"); left -= 1
+                else:
+                    d = rng.randrange(1, left + 1); prefix += str(d); left -= d
+            rows[i] = prefix + str(rng.randrange(9 - used, 9)) + rng.choice(["", "", "p", "1"])
+            f[0] = "/".join(rows)
+            s = " ".join(f)
+        elif style == 0:
             i = rng.randrange(6)
             f[i] = rng.choice(junk)
             s = " ".join(f)
